@@ -25,35 +25,35 @@ PostMatches ==
   /\ complete' = R.complete /\ err' = R.err
   /\ R.at_end = (complete' /\ avail' = 0)
   /\ R.buf = SubSeq(stream', pos' + 1, pos' + avail')
+  /\ AbsInv'
 
 TReset ==
   /\ IsEv("reset")
   /\ stream' = R.stream /\ limit' = R.limit /\ faulty' = R.faulty /\ preLeft' = R.pre
   /\ soff' = 0 /\ sdone' = FALSE /\ scalls' = 0
   /\ pos' = 0 /\ avail' = 0 /\ mark' = 0 /\ complete' = FALSE /\ err' = FALSE /\ chunk' = R.chunk
-  /\ pend' = Idle /\ ret' = [op |-> "none"]
+  /\ pend' = Idle /\ ret' = NoRet
 
 TCall ==
   /\ IsEv("call")
-  /\ ACall(CASE R.op = "request" -> [op |-> "request", n |-> R.arg]
-             [] R.op = "byte_at" -> [op |-> "byte_at", k |-> R.arg]
-             [] R.op = "more"    -> [op |-> "more", done |-> FALSE])
+  /\ ACall(<<R.op, R.arg, FALSE>>)
 
 TSrc ==
   /\ IsEv("src")
   /\ IF R.kind = "overrun" THEN AOverrun(R.offered)
                            ELSE ARead(R.offered, R.kind, R.n, R.intr)
+  /\ AbsInv'
 
 TRet ==
   /\ IsEv("ret")
   /\ IF R.panic
-       THEN /\ pend = Idle /\ ret.op = "panic"     \* the panic was the specified one (AOverrun)
+       THEN /\ pend = Idle /\ ROp(ret) = "panic"     \* the panic was the specified one (AOverrun)
             /\ UNCHANGED avars
        ELSE /\ AReturn
-            /\ ret'.op = R.op
-            /\ CASE R.op = "request" -> R.val = ret'.len
-                 [] R.op = "byte_at" -> R.val = ret'.byte
-                 [] R.op = "more"    -> R.val = ret'.val
+            /\ ROp(ret') = R.op
+            /\ CASE R.op = "request" -> R.val = RA(ret')
+                 [] R.op = "byte_at" -> R.val = RB(ret')
+                 [] R.op = "more"    -> R.val = RA(ret')
   /\ PostMatches
 
 TOp ==
@@ -73,7 +73,7 @@ TInit ==
   /\ stream = <<>> /\ limit = 0 /\ faulty = FALSE /\ preLeft = 0
   /\ soff = 0 /\ sdone = FALSE /\ scalls = 0
   /\ pos = 0 /\ avail = 0 /\ mark = 0 /\ complete = FALSE /\ err = FALSE /\ chunk = 1
-  /\ pend = Idle /\ ret = [op |-> "none"]
+  /\ pend = Idle /\ ret = NoRet
 
 TNext == TReset \/ TCall \/ TSrc \/ TRet \/ TOp
 
